@@ -3,7 +3,7 @@ from /repo/src on every run (files are rewritten only when their content
 changes, so an unchanged tree costs no Lean rebuild).  Each extractor returns
 Lean source text or raises ExtractError; failure to extract (shape changed)
 is reported as a broken obligation, never defaulted."""
-import os, re, subprocess
+import os, re, subprocess, time
 from . import common as C
 
 
@@ -34,15 +34,46 @@ def write_if_changed(path, text):
 
 
 def run_all():
+    """run every extractor (results cached per source-tree hash) and (re)write the Lean files"""
+    import json
+    import hashlib
+    hh = hashlib.sha256()
+    for f in sorted(_glob.glob(os.path.join(os.path.dirname(__file__), "extract*.py"))):
+        hh.update(open(f, "rb").read())
+    cache_p = os.path.join(C.CACHE, "extract-%s-%s.json" % (C.src_hash(), hh.hexdigest()[:10]))
+    cache = {}
+    try:
+        cache = json.load(open(cache_p))
+    except (OSError, ValueError):
+        pass
     errs = []
+    dirty = False
     for name, fn in EXTRACTORS.items():
-        try:
-            text = fn()
-        except ExtractError as e:
-            errs.append("%s: %s" % (name, e))
-            continue
+        if name in cache:
+            text = cache[name]
+        else:
+            try:
+                text = fn()
+            except ExtractError as e:
+                errs.append("%s: %s" % (name, e))
+                continue
+            cache[name] = text
+            dirty = True
         write_if_changed(os.path.join(C.LEAN, "LtVerif", "Extracted", name + ".lean"),
                          "-- GENERATED from /repo/src by tools/ltv/extract.py; do not edit\n" + text)
+    if dirty:
+        os.makedirs(C.CACHE, exist_ok=True)
+        tmp = cache_p + ".%d.tmp" % os.getpid()
+        json.dump(cache, open(tmp, "w"))
+        os.replace(tmp, cache_p)
+        # drop caches of other trees
+        for n in os.listdir(C.CACHE):
+            if n.startswith("extract-") and n.endswith(".json") and os.path.join(C.CACHE, n) != cache_p:
+                try:
+                    if time.time() - os.path.getmtime(os.path.join(C.CACHE, n)) > 3600:
+                        os.remove(os.path.join(C.CACHE, n))
+                except OSError:
+                    pass
     return "; ".join(errs) if errs else None
 
 
